@@ -57,6 +57,28 @@ func c17Receiver(recv, state string) any {
 			c.Init()
 			return c
 		}
+		if strings.HasPrefix(state, "init-only+") {
+			// Init() and nothing but options and closures: still no keyword, operator or expression
+			var c stackage.Condition
+			c.Init()
+			for _, opt := range strings.Split(state, "+")[1:] {
+				switch opt {
+				case "policy":
+					c.SetValidityPolicy(func(...any) error { return nil })
+				case "nopad":
+					c.SetNoPadding(true)
+				case "paren":
+					c.SetParen(true)
+				case "encap":
+					c.SetEncap("'", []string{"<", ">"})
+				case "nonest":
+					c.SetNoNesting(true)
+				case "closures":
+					c.SetPresentationPolicy(nil).SetEqualityPolicy(func(any, any) error { return nil }).SetUnmarshaler(nil).SetEvaluator(func(...any) (any, error) { return nil, nil })
+				}
+			}
+			return c
+		}
 	case "Auxiliary":
 		switch state {
 		case "nil":
@@ -128,7 +150,7 @@ func observe(x any, skipIdentity bool) string {
 }
 
 func c17WantsBystanders(cs c17Case) bool {
-	return cs.Recv != "Auxiliary" && (cs.State == "init-only" || !c11IsQuery(cs.Method))
+	return cs.Recv != "Auxiliary" && (strings.HasPrefix(cs.State, "init-only") || !c11IsQuery(cs.Method))
 }
 
 type c17Bystanders struct {
@@ -237,7 +259,7 @@ func c17Run(c *Ctx, cs c17Case, args []reflect.Value, diff *c17Diff, count bool)
 		c.Violation("panic:"+cs.Recv+"."+cs.Method+":"+cs.State, desc+" panicked: "+p, cs, len(desc))
 		return
 	}
-	if cs.Recv == "Auxiliary" || cs.State == "init-only" {
+	if cs.Recv == "Auxiliary" || strings.HasPrefix(cs.State, "init-only") {
 		if count {
 			c.Outcome(cs.Recv + cs.Method)
 		}
@@ -522,15 +544,19 @@ func c17FreeReset(c *Ctx) int {
 	// the handle is zero afterwards, an earlier copy of it still holds everything
 	for ki, kind := range kindNames {
 		for _, ln := range []int{0, 1, 5, 8, 9, 10, 16, 17, 33, 64, 65, 130, 1023, 1024, 1500} {
-			for variant := 0; variant < 3; variant++ {
+			for variant := 0; variant < 4; variant++ {
 				n++
 				c.Transitions.Add(1)
 				s := newStackKind(kind)
 				if variant == 2 {
 					s = newStackKind(kind, ln+10)
 				}
-				if variant > 0 {
+				if variant == 1 || variant == 2 {
 					decorate(s).SetMutex().SetPushPolicy(pp)
+				}
+				if variant == 3 {
+					// closures that currently say no: releasing a handle is none of their business
+					s.SetValidityPolicy(func(...any) error { return errCat }).SetEqualityPolicy(func(any, any) error { return errCat }).SetErr(errCat)
 				}
 				vals := make([]any, ln)
 				for i := range vals {
@@ -541,7 +567,7 @@ func c17FreeReset(c *Ctx) int {
 				s.Push(vals...)
 				cp := s
 				var err error
-				desc := fmt.Sprintf("Free on %s holding %d elements (variant %d: 1 = configured, 2 = with capacity)", kind, ln, variant)
+				desc := fmt.Sprintf("Free on %s holding %d elements (variant %d: 1 = configured, 2 = with capacity, 3 = rejecting validity policy and a pending error)", kind, ln, variant)
 				if p := noPanic(func() { err = s.Free() }); p != "" {
 					c.Violation("panic:Free", desc+" panicked: "+p, nil, ln)
 					continue
@@ -623,7 +649,7 @@ func init() {
 			name   string
 			sample any
 			states []string
-		}{{"Stack", stackage.Stack{}, []string{"zero", "freed", "freed-twice"}}, {"Condition", stackage.Condition{}, []string{"zero", "freed", "freed-twice", "init-only"}}, {"Auxiliary", stackage.Auxiliary{}, []string{"nil", "empty"}}} {
+		}{{"Stack", stackage.Stack{}, []string{"zero", "freed", "freed-twice"}}, {"Condition", stackage.Condition{}, []string{"zero", "freed", "freed-twice", "init-only", "init-only+policy", "init-only+policy+nopad", "init-only+policy+paren", "init-only+policy+nopad+paren+encap+nonest", "init-only+nopad+paren+encap", "init-only+policy+closures+nopad"}}, {"Auxiliary", stackage.Auxiliary{}, []string{"nil", "empty"}}} {
 			for _, me := range methodsOf(rv.sample, rv.name) {
 				for _, t := range argTuples(me.Type, c17Pick(me.Name), 300) {
 					for _, st := range rv.states {
